@@ -560,6 +560,8 @@ fn run_worker(
     changeset: &[(Key, Option<(Vec<u8>, bool)>)],
     mut worker_params: WorkerParams<LeafNode>,
 ) -> std::io::Result<LeafWorkerOutput> {
+    #[cfg(feature = "verif-hooks")]
+    crate::verif::yield_point(20);
     let mut leaf_updater = LeafUpdater::new(leaf_reader.page_pool().clone(), None, None);
     let mut overflow_deleted = Vec::new();
     let mut pending_left_request = None;
@@ -662,6 +664,8 @@ fn run_worker(
         );
     }
 
+    #[cfg(feature = "verif-hooks")]
+    crate::verif::yield_point(21);
     // Now we are safe to send over our right neighbor to the left one
     // because we're sure to have finished interacting with it
     has_finished_workload = true;
